@@ -110,7 +110,7 @@ def describe(rep):
     )
     rep.rule = 'state = explored path (block/step pattern) of the real run loop; transition = branch decision; all paths are real executions'
     rep.assume('probe sweeper honours the direct-solver contract (residual 0 iff nodes were computed for the current u[0])',
-               'fixed step size (adaptive step sizes are C09)', 'L1 is exact real arithmetic; rounding of time accumulation is only treated in L2',
+               'layer 1/2: fixed step size; restart histories (with and without halving of the step size) are explored with the C09 machinery and judged for tiling / chaining / reaching Tend', 'L1 is exact real arithmetic; rounding of time accumulation is only treated in L2',
                'L2 ranges: 0 <= t0 <= 2^20, 2^-10 <= dt <= 2^10; L2 is a counterexample finder with replay, not a proof')
     rep.out_of_scope('controller_MPI, controller_ParaDiag_nonMPI', 'more steps than the bound', 'multi-level runs (value chaining there is covered by C01)')
 
@@ -121,7 +121,13 @@ def tasks(tier, seed):
         for NP, NMAX in [(1, 6), (2, 8), (3, 9), (4, 10)]:
             T.append(('L1', NP, NMAX))
         T.append(('witness',))
+        from harness import c09
+
+        T += [t for t in c09.tasks(tier, seed) if t[0] == 'hist' and (len(t) > 7 and t[7] or t[1] <= 2)]
     else:
+        from harness import c09
+
+        T += [t for t in c09.tasks(tier, seed) if t[0] == 'hist']
         for NP, NMAX in [(1, 12), (2, 12), (3, 12), (4, 12), (5, 12), (6, 12), (7, 12), (8, 12)]:
             T.append(('L1', NP, NMAX))
         T.append(('witness',))
@@ -130,7 +136,14 @@ def tasks(tier, seed):
     return T
 
 
+C06_HIST_CLAUSES = ('tiling', 'chaining', 'stops-early', 'returned-value', 'restart-point')
+
+
 def run_task(rep, task):
+    if task[0] == 'hist':
+        from harness import c09
+
+        return c09.hist_case(rep, *task[1:7], pid=PID, clauses=C06_HIST_CLAUSES, shrink=(task[7] if len(task) > 7 else False))
     if task[0] == 'L1':
         l1_case(rep, task[1], task[2])
     elif task[0] == 'witness':
